@@ -29,6 +29,7 @@
 (***************************************************************************)
 EXTENDS Integers, Sequences, FiniteSets, TLC
 
+Count(s, x) == Cardinality({j \in 1..Len(s) : s[j] = x})
 RECURSIVE Flat(_)
 Flat(ss) == IF Len(ss) = 0 THEN <<>> ELSE Head(ss) \o Flat(Tail(ss))
 
@@ -56,10 +57,16 @@ Scoped(n) == n.k = "assoc"
 HasScoped(s) == \E x \in SubsSeq(s) : x.k = "assoc"
 
 \* every node of the sub-tree loses its identity (used for nodes whose identity is not specified)
-RECURSIVE Anon(_), AnonSeq(_), AnonSlots(_)
-Anon(n) == [n EXCEPT !.o = -1, !.b = AnonSlots(n.b)]
-AnonSlots(bs) == IF Len(bs) = 0 THEN <<>> ELSE <<AnonSeq(Head(bs))>> \o AnonSlots(Tail(bs))
-AnonSeq(s) == IF Len(s) = 0 THEN <<>> ELSE <<Anon(Head(s))>> \o AnonSeq(Tail(s))
+\* o = -1: replacement material supplied by the caller (no statement about its identity)
+\* o = -2: the key inside its own one-to-many handle and its rebuilt sub-tree: images of nodes of the
+\*         original (so they must be rebuilt objects when not in place), but which of several equal
+\*         objects they stem from is not specified
+RECURSIVE Mark(_, _), MarkSeq(_, _), MarkSlots(_, _)
+Mark(n, v) == [n EXCEPT !.o = IF n.o = -1 THEN -1 ELSE v, !.b = MarkSlots(n.b, v)]
+MarkSlots(bs, v) == IF Len(bs) = 0 THEN <<>> ELSE <<MarkSeq(Head(bs), v)>> \o MarkSlots(Tail(bs), v)
+MarkSeq(s, v) == IF Len(s) = 0 THEN <<>> ELSE <<Mark(Head(s), v)>> \o MarkSeq(Tail(s), v)
+Anon(n) == Mark(n, -1)
+AnonSeq(s) == MarkSeq(s, -1)
 
 (***************************************************************************)
 (* Mapping look-up                                                         *)
@@ -83,11 +90,14 @@ RECURSIVE AllWin(_, _, _)
 AllWin(s, M, i) == IF i > Len(M) THEN s
                    ELSE AllWin(IF Len(M[i].key) > 1 THEN RepWin(s, M[i].key, SubOf(M[i])) ELSE s, M, i + 1)
 
-\* the elements of a one-to-many handle; the key itself may be one of them and then stands for
-\* the (rebuilt) node `self`
+\* the elements of a one-to-many handle; the key itself may be one of them and then IS the node
+\* itself, rebuilt with its children transformed (`self`): mappings below it are applied, every
+\* descendant is rebuilt and recorded (the contract of the implementation's "making sure this is
+\* not replaced again" branch, and what "every other node keeps its content" / "the record covers
+\* every node of the original" demand)
 RECURSIVE SpliceR(_, _, _)
 SpliceR(val, key, self) == IF Len(val) = 0 THEN <<>>
-                           ELSE (IF Strip(Head(val)) = key THEN <<Anon(self)>> ELSE <<Anon(Head(val))>>) \o SpliceR(Tail(val), key, self)
+                           ELSE (IF Strip(Head(val)) = key THEN <<Mark(self, -2)>> ELSE <<Anon(Head(val))>>) \o SpliceR(Tail(val), key, self)
 Splice(e, n, self) == SpliceR(e.val, Strip(n), self)
 
 (***************************************************************************)
@@ -223,15 +233,19 @@ Apply(c) == CASE c.cls = "T"  -> TSeq(c.tree, c.map)
 (* no sub-term with the tree), so that "is the replacement revisited?" -   *)
 (* on which the docstrings are silent - cannot matter.                     *)
 (***************************************************************************)
-\* kept nodes: neither mapped (node key or inside a matched window) nor below a mapped node
+\* kept nodes: neither mapped (node key or inside a matched window) nor below a mapped node; a key that
+\* is contained in its own one-to-many handle stays in the tree and counts as kept, with its sub-tree
+SelfKept(n, M0) == LET i == KeyOf(n, M0) IN
+                   i # 0 /\ M0[i].typ = "tuple" /\ \E j \in 1..Len(M0[i].val) : Strip(M0[i].val[j]) = Strip(n)
 RECURSIVE NoneMap(_)
 NoneMap(M) == IF Len(M) = 0 THEN <<>> ELSE <<[Head(M) EXCEPT !.typ = "none"]>> \o NoneMap(Tail(M))
-RECURSIVE KAS(_, _), KASlots(_, _), KAEach(_, _)
-KASlots(bs, M) == IF Len(bs) = 0 THEN <<>> ELSE KAS(Head(bs), M) \o KASlots(Tail(bs), M)
-KAEach(w, M) == IF Len(w) = 0 THEN <<>>
-                ELSE (IF KeyOf(Head(w), M) # 0 THEN <<>> ELSE <<Head(w)>> \o KASlots(Head(w).b, M)) \o KAEach(Tail(w), M)
-KAS(s, M) == KAEach(AllWin(s, M, 1), M)
-KeptAll(c) == KAS(c.tree, NoneMap(c.map))
+RECURSIVE KAS(_, _, _), KASlots(_, _, _), KAEach(_, _, _)
+KASlots(bs, M, M0) == IF Len(bs) = 0 THEN <<>> ELSE KAS(Head(bs), M, M0) \o KASlots(Tail(bs), M, M0)
+KAEach(w, M, M0) == IF Len(w) = 0 THEN <<>>
+                    ELSE (IF KeyOf(Head(w), M) # 0 /\ ~SelfKept(Head(w), M0) THEN <<>>
+                          ELSE <<Head(w)>> \o KASlots(Head(w).b, M, M0)) \o KAEach(Tail(w), M, M0)
+KAS(s, M, M0) == KAEach(AllWin(s, M, 1), M, M0)
+KeptAll(c) == KAS(c.tree, NoneMap(c.map), c.map)
 Img(n, c) == IF c.cls = "T" THEN TKeep(n, c.map) ELSE NKeep(n, c.map)
 \* value semantics corner: a kept node whose rebuilt image EQUALS a key (e.g. removing loop[] from
 \* loop[loop[]] leaves loop[]).  Pre-order application is still determined; for the depth-first
@@ -254,9 +268,12 @@ LegalEntry(e, c, tt, ks) ==
            sv == Strip(v) IN
        \* fresh: shares no sub-term with the tree
        \/ Subs(v) \cap tt = {}
-       \* the key itself inside its one-to-many handle (nothing else is mapped below the key)
+       \* the key itself inside its one-to-many handle; further keys may lie below it.  An object that
+       \* is updated in place (inplace, or a scoped node without rebuild_scopes) and reached twice would
+       \* have its already transformed children transformed again: then the key occurs only once
        \/ /\ e.typ = "tuple" /\ Len(e.key) = 1 /\ sv = e.key[1] /\ c.cls \in {"T", "N"}
-          /\ ~selfBelow
+          /\ selfBelow => \/ Count(StripSeq(Pre(c.tree)), e.key[1]) <= 1
+                          \/ ~c.inplace /\ (c.rs \/ ~HasScoped(<<v>>))
        \* relabel: a fresh-tagged copy of the key with the key's own children
        \/ /\ Len(e.key) = 1 /\ e.typ = "node" /\ Len(e.key[1].b) > 0
           /\ v.k = e.key[1].k /\ sv.b = e.key[1].b /\ sv \notin tt
@@ -314,7 +331,6 @@ RECURSIVE VisitedSeq(_, _), VisitedSlots(_, _)
 VisitedSlots(bs, M) == IF Len(bs) = 0 THEN <<>> ELSE VisitedSeq(Head(bs), M) \o VisitedSlots(Tail(bs), M)
 VisitedSeq(s, M) == IF Len(s) = 0 THEN <<>>
                     ELSE (IF KeyOf(Head(s), M) # 0 THEN <<KeyOf(Head(s), M)>> ELSE VisitedSlots(Head(s).b, M)) \o VisitedSeq(Tail(s), M)
-Count(s, x) == Cardinality({j \in 1..Len(s) : s[j] = x})
 \* ExactlyMapped: no mapped term survives, and replacement material appears exactly once per
 \* visited occurrence of its key (nothing is replaced twice, nothing is skipped)
 ExactlyMapped(c) ==
@@ -365,8 +381,16 @@ MaskSubseq(c) ==
 RECURSIVE Match(_, _)
 MatchSeq(es, gs) == Len(es) = Len(gs) /\ \A j \in 1..Len(es) : Match(es[j], gs[j])
 Match(e, g) == /\ e.k = g.k /\ e.t = g.t /\ Len(e.b) = Len(g.b)
-               /\ (e.o = -1 \/ e.o = g.o)
+               /\ (e.o < 0 \/ e.o = g.o)
                /\ \A i \in 1..Len(e.b) : MatchSeq(e.b[i], g.b[i])
+\* "Applying a Transformer rebuilds all nodes by default, which means individual nodes from the
+\* original IR are no longer found in the new tree": without inplace, the image of a node of the
+\* original is a new object (g.o = 0), except scoped nodes unless rebuild_scopes is requested.
+\* Replacement material (o = -1) is the caller's business.
+RECURSIVE NoShare(_, _, _)
+NoShareSeq(es, gs, rs) == Len(es) = Len(gs) /\ \A j \in 1..Len(es) : NoShare(es[j], gs[j], rs)
+NoShare(e, g, rs) == /\ (e.o = -1 \/ g.o = 0 \/ (Scoped(e) /\ ~rs))
+                     /\ Len(e.b) = Len(g.b) /\ \A i \in 1..Len(e.b) : NoShareSeq(e.b[i], g.b[i], rs)
 \* ... but not looking below scoped nodes (they are documented to be updated in place unless
 \* rebuild_scopes is requested)
 RECURSIVE MatchModScoped(_, _)
@@ -425,6 +449,7 @@ Verdict(c, obs) ==
   ELSE IF Malformed(obs.result) # "" THEN "result-malformed:" \o Malformed(obs.result)
   ELSE IF StripSeq(obs.result) # StripSeq(exp) THEN "result-tree:" \o DiffSeq(exp, obs.result)
   ELSE IF c.inplace /\ ~MatchSeq(exp, obs.result) THEN "inplace-identity"
+  ELSE IF ~c.inplace /\ ~NoShareSeq(exp, obs.result, c.rs) THEN "result-shares-original"
   ELSE IF ~c.inplace /\ (c.rs \/ ~HasScoped(c.tree)) /\ ~MatchSeq(c.tree, obs.orig) THEN "original-modified"
   ELSE IF ~c.inplace /\ ~MatchModScopedSeq(c.tree, obs.orig) THEN "original-modified-outside-scopes"
   ELSE IF ~c.inplace /\ c.cls \in {"T", "N"} /\ ~RebuiltOK(c, obs) THEN "rebuilt-record"
